@@ -31,6 +31,7 @@ def check(run):
         mod = repo.module(prel)
         for f in mod.funcs.values():
             dispatch.check_function(run, repo, f)
+            depend.check_branch_reads(run, repo, f)
         st = repo.func(prel.replace('paulialg', 'stabilizer'), 'StabilizerState.expect')
         dispatch.check_function(run, repo, st)
         for cname, fields in FIELDS.items():
